@@ -12,7 +12,10 @@ EXPLANATION = (
     "one-shot calculation equals the set reachable from the gradual calculator's methods (passed_objects aside): a setting "
     "consulted by only one side (e.g. the clock rate) makes the two disagree for every non-default value. R3: the gradual count state (mania NoteState, osu gradual "
     "attribute counters) is written only by its per-object delta function or reset to zero, so no object is counted by a second formula. R4: no integer truncation is fed by a value that was stored divided by the "
-    "clock rate and multiplied by it again (inexact round trip; the one-shot path truncates the unscaled value). Equality of the values per prefix (nth arithmetic, "
+    "clock rate and multiplied by it again (inexact round trip; the one-shot path truncates the unscaled value). R5: a mode whose "
+    "skills read a FORWARD neighbour of the current difficulty object (index = idx + k) builds the one-shot difficulty objects from the whole "
+    "object list, as the gradual constructor does, and not from a list cut at passed_objects (the last note of a prefix would lose its successor "
+    "in one path only). Equality of the values per prefix (nth arithmetic, "
     "count deltas) is numeric and NOT decided.")
 
 
@@ -42,6 +45,7 @@ def run(ctx):
             ctx.ok('C02-R2', mode + ':settings', 'one-shot and gradual %s paths consult the same Difficulty settings: %s (passed_objects aside)' % (mode, sorted(a)))
     r3_counters(ctx, F)
     r4_roundtrip(ctx, F)
+    r5_lookahead(ctx, F)
     ctx.not_decided('equality of the i-th gradual value with the one-shot value for passed_objects(i); number of values; '
                     'final value equals full calculation (arithmetic over runtime values)')
 
@@ -188,3 +192,85 @@ def r4_roundtrip(ctx, F):
     if not hits:
         ctx.ok('C02-R4', 'scan', '%d float-to-int truncations (with callers substituted one level): none takes a (field / rate) * rate round trip of the %d clock-rate-scaled fields'
                % (ncasts, len(scaled)))
+
+
+# ---- R5: look-ahead vs truncated object list
+TRUNCATORS = {'take', 'take_while', 'skip', 'skip_while', 'step_by', 'truncate', 'split_at', 'get', 'index'}
+
+
+def forward_access_sites(F):
+    """functions that access a collection at (something's idx) + k"""
+    import prov
+    out = {}
+    for fn in F.fns:
+        P = None
+        for bi, t in fn.calls():
+            if t['func'].get('name') not in ('get', 'index', 'get_unchecked'):
+                continue
+            if P is None:
+                P = prov.prov_of(fn)
+            args = P.call_args(bi)
+            if len(args) < 2:
+                continue
+            for n in prov.walk(args[1], limit=200):
+                if n[0] == 'binop' and n[1] in ('Add', 'AddWithOverflow', 'AddUnchecked'):
+                    idxish = False
+                    for m in prov.walk(n, limit=120):
+                        if m[0] == 'field' and str(m[2]).endswith('idx'):
+                            idxish = True
+                        if m[0] == 'call' and m[1].get('name') == 'idx':
+                            idxish = True
+                    if idxish:
+                        out.setdefault(fn.path, fn)
+    return out
+
+
+def r5_lookahead(ctx, F):
+    import prov
+    import callgraph
+    from common import MODES
+    sites = forward_access_sites(F)
+    ctx.floor('C02-R5', len(sites), 2, 'forward-neighbour accessors (IDifficultyObject::next, TaikoDifficultyObjects::next_note)')
+    cg = callgraph.CallGraph(F)
+    for mode in MODES:
+        path = '%s::difficulty::DifficultyValues::calculate' % mode
+        f = next((x for x in F.fns if x.path == path), None)
+        if f is None:
+            ctx.violation('C02-R5', 'anchor-missing:%s' % mode, '%s not found' % path)
+            continue
+        ctx.saw(f)
+        reach = cg.reachable_from([path])
+        # the call graph resolves calls on generic receivers to every local impl; keep to the mode's own functions and the
+        # accessors they call directly
+        own = [p for p in reach if p.lstrip('<&').startswith(mode + '::')]
+        ahead = sorted({p for p in own if p in sites} | {q for p in own for q in cg.succ.get(p, ()) if q in sites})
+        P = prov.prov_of(f)
+        cuts, margins, ncalls = [], [], 0
+        for bi, t in f.calls():
+            if t['func'].get('name') != 'create_difficulty_objects':
+                continue
+            ncalls += 1
+            for a in P.call_args(bi):
+                if a[0] in ('param', 'const'):
+                    continue
+                for n in prov.walk(a, limit=1500):
+                    if n[0] == 'call' and n[1].get('name') in TRUNCATORS and len(n[2]) >= 2:
+                        cnt = n[2][1]
+                        inner = list(prov.walk(cnt, limit=300))
+                        if any(m[0] == 'call' and m[1].get('name') == 'get_passed_objects' for m in inner):
+                            (margins if any(m[0] == 'binop' and m[1] in ('Add', 'AddWithOverflow', 'AddUnchecked') for m in inner) else cuts).append(n[1].get('name'))
+        if ncalls == 0:
+            ctx.violation('C02-R5', 'anchor-missing:%s:create_difficulty_objects' % mode, '%s no longer calls create_difficulty_objects' % path)
+            continue
+        key = '%s:lookahead' % mode
+        if not ahead:
+            ctx.ok('C02-R5', key, 'no forward-neighbour access is reachable from %s: cutting the object list at passed_objects (%s) cannot be observed' % (path, cuts or 'not done'), f.where())
+        elif cuts:
+            ctx.violation('C02-R5', key, '%s builds its difficulty objects from an object list cut at passed_objects (%s) although %s read(s) the next '
+                          'difficulty object: the last object of a prefix has a successor in the gradual calculator (which builds the whole list) and none here, '
+                          'so the i-th gradual value differs from the one-shot value with passed_objects(i)' % (path, ', '.join(cuts), ', '.join(ahead[:3])), f.where())
+        elif margins:
+            ctx.assumed('C02-R5', key, '%s cuts the object list at passed_objects plus a margin (%s); whether the margin covers the look-ahead depth of %s is not decided' % (
+                path, margins, ahead[:3]), f.where())
+        else:
+            ctx.ok('C02-R5', key, '%s reaches forward-neighbour accessors (%s) and builds its difficulty objects from the whole object list' % (path, ', '.join(x.split('::')[-1] for x in ahead)), f.where())
